@@ -331,7 +331,8 @@ class Report:
         if self.violations:
             path = self.write_replay(
                 {"kind": "failing-input", "cases": self.violations[:10],
-                 "broken_ties": self.tie_breaks[:20]}, "violation")
+                 "broken_ties": self.tie_breaks[:20],
+                 "first_disagreements": self.disagreements[:10]}, "violation")
             lines.append(f"VIOLATION property={self.prop} replay={path}")
             code = 1
         elif self.tie_breaks:
